@@ -38,7 +38,9 @@ CHECKS = {
 SYSNOTE = ('Quill.tla (implementation-shaped, cut at the QUILL_VERIF yield points, constants extracted) is exhaustive for small configurations '
            'only (2-3 threads x 1-2 statements); the real code is observed on the exported schedules (sampled in quick) and on seeded random '
            'scenario families, serialised by the token scheduler between yield points (hooks, interposed clock/sleep); relaxed flags outside '
-           'the queues behave sequentially consistent under it; unbounded queues are never full in the model')
+           'the queues behave sequentially consistent under it; unbounded queues are never full in the model; the protocol models bound through '
+           'h_stop (StopRA, NewCtxRA, CounterRA, FilterRA: small bounds, 1-4 statements, 1-3 extra threads) script only the NAMED atomic objects - every '
+           'other atomic of the library reads its newest value - and run the backend with sleep_duration = 0 (the wake-up mutex is not modelled)')
 CHECKS.update({
  "C03": dict(engine="tlc+h_sys", cat=MC, ref="4 C03",
    text="Quill.tla checked exhaustively for small configurations (per-action checks of this property, I=>A on every exported behaviour, schedules replayed on the real code with state comparison); plus executions of the real frontend/backend under seeded schedules (several threads, sizes up to the queue capacity, thread exits, flushes, fine-grained backend steps) are validated by TLC against QuillContract (exactly once, per-thread order, completeness at quiescence); the registration of a new thread context under the C++ release/acquire model (flag set / load / clear, registry copy under the lock) is NewCtxRA.tla with the orders and the clear-before-copy order extracted from the code, every transition replayed on the REAL backend thread and REAL first log calls of new threads parked at every access of the flag (h_stop, fine-grained mode)",
